@@ -255,6 +255,63 @@ func TestVerifBoundedC02(t *testing.T) {
 			}
 		}
 	}
+	// nested object graphs: one clause per violated rule instance, wherever it sits (maps of pointers, slices, arrays,
+	// pointers to pointers), outer-field order kept; rules listed after a skipped (zero-valued) extension rule still count
+	type c2Leaf struct {
+		Name string `valid:"to=1~2"`
+		Age  int    `valid:"le=3,ge=1"`
+	}
+	type c2Mid struct {
+		First string             `valid:"to=2~5,required"`
+		ByPtr map[string]*c2Leaf `valid:"required"`
+		ByVal map[int]c2Leaf     `valid:"exist"`
+		List  []*c2Leaf          `valid:"exist"`
+		Arr   [2]c2Leaf          `valid:"exist"`
+		PP    **c2Leaf           `valid:"exist"`
+		Last  int                `valid:"ge=1,either=1"`
+		Other int                `valid:"either=1"`
+	}
+	bad, good := c2Leaf{"toolong", 9}, c2Leaf{"ab", 2}
+	pbad := &bad
+	for ci, c := range []struct {
+		v    c2Mid
+		want []string // clause paths in order; map entries of one field may permute
+	}{
+		{c2Mid{First: "abc", ByPtr: map[string]*c2Leaf{"a": &bad}, Last: 1}, []string{"c2Mid.ByPtr[a].Name", "c2Mid.ByPtr[a].Age"}},
+		{c2Mid{First: "abc", ByPtr: map[string]*c2Leaf{"a": &good}, ByVal: map[int]c2Leaf{7: bad}, Last: 1}, []string{"c2Mid.ByVal[7].Name", "c2Mid.ByVal[7].Age"}},
+		{c2Mid{First: "abc", ByPtr: map[string]*c2Leaf{"a": &good}, List: []*c2Leaf{&good, nil, &bad}, Arr: [2]c2Leaf{bad, good}, PP: &pbad, Last: 1},
+			[]string{"c2Mid.List[2].Name", "c2Mid.List[2].Age", "c2Mid.Arr[0].Name", "c2Mid.Arr[0].Age", "c2Mid.PP.Name", "c2Mid.PP.Age"}},
+		{c2Mid{First: "", ByPtr: map[string]*c2Leaf{"a": &good}}, []string{"c2Mid.First", "c2Mid.Last, c2Mid.Other"}},
+		{c2Mid{First: "abcdefgh", Last: 1}, []string{"c2Mid.First", "c2Mid.ByPtr"}},
+	} {
+		n++
+		err := Struct(&c.v)
+		var got []string
+		for _, cl := range wbClauses(err) {
+			p := wbPath(cl)
+			if p == "" { // group clauses name their members
+				p = strings.TrimSpace(strings.SplitN(strings.TrimPrefix(cl, "\""), "\" ", 2)[0])
+			}
+			got = append(got, p)
+		}
+		if len(got) != len(c.want) {
+			rep.report("C02.nested", "case %d: %d clauses %q, want %d: %q (error: %v)", ci, len(got), got, len(c.want), c.want, err)
+			continue
+		}
+		for i := range got {
+			if !strings.HasPrefix(strings.ReplaceAll(got[i], "\"", ""), strings.SplitN(c.want[i], ",", 2)[0]) && got[i] != c.want[i] {
+				rep.report("C02.nested", "case %d: clause %d is for %q, want %q (error: %v)", ci, i, got[i], c.want[i], err)
+			}
+		}
+	}
+	// top-level collections through Struct: every element is validated
+	if got := len(wbClauses(Struct(map[string]*c2Leaf{"x": &bad, "y": &good, "z": &bad}))); got != 4 {
+		rep.report("C02.nested", "Struct(map of 3 pointers, 2 of them violating 2 rules each): %d clauses, want 4", got)
+	}
+	if got := len(wbClauses(Struct([]c2Leaf{bad, good, bad}))); got != 4 {
+		rep.report("C02.nested", "Struct(slice of 3, 2 of them violating 2 rules each): %d clauses, want 4", got)
+	}
+	n += 2
 	// known finding probe: the unknown-rule clause on map / URL input does not name the key
 	if err := Map(map[string]string{"k": "v"}, NewRule().Set("k", "zz")); err != nil && !strings.Contains(err.Error(), "\"k\"") && !strings.Contains(err.Error(), "map[k]") {
 		fmt.Printf("BOUNDED-KNOWN tag=C02.nopath Map({k:v}, {k: zz}) = %q: the unknown-rule clause does not identify the field\n", err.Error())
